@@ -30,7 +30,7 @@ func VH_C10_Handshake() {
 	p.ctx, p.cancel = context.WithCancel(context.Background())
 	stale := vIntRange("stale", 0, vParam("maxstale", 1))
 	for i := 0; i < stale; i++ {
-		b := vBytes("stale", vIntRange("stalelen", 1, 3))
+		b := vBytes("stale", vIntRange("stalelen", 1, vParam("maxstalelen", 3)))
 		if vBool("stale_to_server") {
 			p.c2s.ch <- b
 		} else {
